@@ -86,7 +86,29 @@ def check_case(case):
         for b in ds[1:]:
             p += b
         return p
+    def iadd_measured():      # the path is measured and walked between the pieces: what was appended later still counts
+        p = svg.Path(ds[0])
+        for b in ds[1:]:
+            try:
+                p.length(error=1e-3)
+                p.point(0.5, error=1e-3)
+            except engine.CaseTimeout:
+                raise
+            except Exception:
+                pass          # (fragments without a start point cannot be measured: C09's finding)
+            p += b
+        try:
+            fresh = svg.Path(*[copy(g) for g in p]) if len(p) != 1 else svg.Path(copy(p[0]))
+            L1, L2 = p.length(error=1e-3), fresh.length(error=1e-3)
+        except engine.CaseTimeout:
+            raise
+        except Exception:
+            return p
+        if abs(L1 - L2) > 1e-9 * max(1.0, abs(L2)):
+            raise AssertionError("measured between the pieces, the path reports length %r; its segments measure %r" % (L1, L2))
+        return p
     cmp("iadd", iadd)
+    cmp("iadd_measured", iadd_measured)
     cmp("add", add)
     cmp("parse", parse)
     cmp("kw_add", kw_add)
@@ -218,7 +240,9 @@ def check_shape_case(case):
               svg.Path("M1,1L2,3z"),
               # operands that carry a transform of their own are drawn where that transform puts them
               svg.Rect(1, 2, 5, 4, transform="scale(2,3)"), svg.Polyline((0, 0), (3, 4), (6, 0), transform="translate(4,5)"),
-              svg.Path("M1,1L2,3z", transform="translate(4,5) scale(2)"), svg.Path("M1,1 Q2,3 4,1 z") * svg.Matrix(0, 1, -1, 0, 3, 0)]
+              svg.Path("M1,1L2,3z", transform="translate(4,5) scale(2)"), svg.Path("M1,1 Q2,3 4,1 z") * svg.Matrix(0, 1, -1, 0, 3, 0),
+              # ... and whose data is written with relative commands (a relative first move is absolute, SVG 9.3.3)
+              svg.Path("m1,1 l1,2 l-2,3 z", transform="translate(100,0)"), svg.Path("m2,1 q1,2 3,0 z m 5,5 l 1,1") * svg.Matrix(2, 0, 0, 3, -7, 4)]
     for sh in shapes:
         for name, op in (("path_add_shape", lambda p, s: p + s), ("path_iadd_shape", lambda p, s: p.__iadd__(s))):
             try:
